@@ -310,6 +310,8 @@ pub struct World<A: App> {
     /// How many times the timeout handler is called per timer firing before transmits are polled
     /// (0/1: once)
     pub timeout_calls: u32,
+    /// `Pair::new_pre` leaves the client connection unpolled after `connect` (the caller acts first)
+    pub connect_unsettled: bool,
     /// Consecutive timer firings at one instant for one connection: (t, node, ch, count)
     pub timer_streak: (Duration, usize, usize, u32),
     pub max_timer_streak: u32,
@@ -360,6 +362,7 @@ impl<A: App> World<A> {
             hold_drained: false,
             linger_dead: false,
             timeout_calls: 1,
+            connect_unsettled: false,
             timer_streak: (Duration::ZERO, 0, 0, 0),
             max_timer_streak: 0,
             post_drain_output: Vec::new(),
@@ -1295,7 +1298,9 @@ impl<A: App> Pair<A> {
         let cc = client_config(cfg, keylog.clone(), 0xc1);
         pre(&mut w);
         let cch = w.connect(CLIENT, SERVER, cc.clone(), client_app);
-        w.settle_conn(CLIENT, cch);
+        if !w.connect_unsettled {
+            w.settle_conn(CLIENT, cch);
+        }
         Self { w, keylog, cch, client_cfg: cc, cfg_name: cfg.client.name.clone() }
     }
 
